@@ -19,6 +19,28 @@ pub struct NmsCase {
     /// so the threshold is decided without a tolerance band
     #[serde(default)]
     pub exact: bool,
+    /// box i is a re-used object: it was built with these earlier values, had its vertices
+    /// generated, and was then moved to its listed values by field assignment (bit 0 of the flag:
+    /// handed over as a clone of that object)
+    #[serde(default)]
+    pub reused: Vec<Option<(UB, u8)>>,
+}
+
+fn materialize(c: &NmsCase, i: usize) -> Universal2DBox {
+    let b = &c.boxes[i].0;
+    match c.reused.get(i).copied().flatten() {
+        None => b.lib(),
+        Some((old, flag)) => {
+            let mut l = old.lib();
+            l.gen_vertices();
+            l.xc = b.xc;
+            l.yc = b.yc;
+            l.angle = b.angle;
+            l.aspect = b.aspect;
+            l.height = b.height;
+            if flag & 1 == 1 { l.clone() } else { l }
+        }
+    }
 }
 
 #[derive(Clone, Debug)]
@@ -58,8 +80,9 @@ pub fn nms_case() -> impl Strategy<Value = NmsCase> {
         0.05f32..0.95,
         prop_oneof![2 => Just(None), 1 => Just(Some(0.0f32)), 2 => (0.2f32..0.8).prop_map(Some), 1 => Just(Some(200.0f32))],
         0u8..3,
+        proptest::collection::vec(prop_oneof![3 => Just(None), 1 => (-1.5f32..1.5, -1.5f32..1.5, -1.6f32..1.6, 0u8..2).prop_map(Some)], 40),
     )
-        .prop_map(|(specs, clusters, nms_thr, score_thr, score_mode)| {
+        .prop_map(|(specs, clusters, nms_thr, score_thr, score_mode, reuse)| {
             let mut boxes: Vec<(UB, Option<f32>)> = vec![];
             for s in specs {
                 if s.dup && !boxes.is_empty() {
@@ -88,7 +111,16 @@ pub fn nms_case() -> impl Strategy<Value = NmsCase> {
                 };
                 boxes.push((b, score));
             }
-            NmsCase { boxes, nms_thr, score_thr, exact: false }
+            let reused = boxes.iter().enumerate().map(|(i, (b, _))| {
+                reuse.get(i).copied().flatten().filter(|_| b.height > 0.0 && b.aspect > 0.0).map(|(dx, dy, da, flag)| {
+                    let mut old = *b;
+                    old.xc += dx * b.height;
+                    old.yc += dy * b.height;
+                    old.angle = Some(b.angle.unwrap_or(0.0) + da);
+                    (old, flag)
+                })
+            }).collect();
+            NmsCase { boxes, nms_thr, score_thr, exact: false, reused }
         })
 }
 
@@ -110,6 +142,7 @@ pub fn exact_case() -> impl Strategy<Value = NmsCase> {
             nms_thr,
             score_thr,
             exact: true,
+            reused: vec![],
         })
 }
 
@@ -118,7 +151,7 @@ fn rank(b: &UB, s: Option<f32>) -> f32 {
 }
 
 pub fn check_nms(c: &NmsCase) -> CaseResult {
-    let input: Vec<(Universal2DBox, Option<f32>)> = c.boxes.iter().map(|(b, s)| (b.lib(), *s)).collect();
+    let input: Vec<(Universal2DBox, Option<f32>)> = c.boxes.iter().enumerate().map(|(i, (_, s))| (materialize(c, i), *s)).collect();
     let out = nms(&input, c.nms_thr, c.score_thr);
     // recover indices by address
     let base = input.as_ptr() as usize;
@@ -217,6 +250,7 @@ pub fn check_nms(c: &NmsCase) -> CaseResult {
         .label_if(suppressed > 0, "suppression")
         .label_if(overlap_kept, "kept_overlap")
         .label_if(band_hit, "band")
+        .label_if(c.reused.iter().any(|r| r.is_some()), "reused_box_objects")
         .label_if(c.boxes.iter().any(|(b, _)| !(b.height > 0.0 && b.aspect > 0.0)), "invalid_present")
         .label_if(kept.is_empty(), "empty_output"))
 }
